@@ -210,6 +210,43 @@ def obs_events(chk):
                 batch.add(ev)
                 if not kw:
                     break
+    # the ends of the documented parameter ranges, against the closed form evaluated independently
+    import scipy.special as ss
+    import scipy.signal.windows as sw
+
+    def tukey_ref(N, r):
+        x = np.linspace(0, 1, N)
+        b = np.ones(N)
+        if r <= 0:
+            return b
+        m1 = x < r / 2
+        b[m1] = 0.5 * (1 + np.cos(2 * np.pi / r * (x[m1] - r / 2)))
+        m2 = x >= 1 - r / 2
+        b[m2] = 0.5 * (1 + np.cos(2 * np.pi / r * (x[m2] - 1 + r / 2)))
+        return b
+
+    def kaiser_ref(N, beta):
+        n = np.arange(N)
+        al = (N - 1) / 2.0
+        arg = beta * np.sqrt(np.maximum(0.0, 1 - ((n - al) / al) ** 2))
+        return ss.i0e(arg) / ss.i0e(beta) * np.exp(arg - beta)
+    extremes = [('tukey', {'r': r}, tukey_ref) for r in (1e-9, 1e-6, 1e-3, 0.5, 0.99, 0.999995, 1 - 1e-9)]
+    extremes += [('kaiser', {'beta': b}, kaiser_ref) for b in (0.5, 30.0, 99.0, 100.0, 101.0, 150.0, 300.0, 600.0)]
+    extremes += [('taylor', {'nbar': nb, 'sll': sll}, None) for nb in (2, 8, 12, 13, 14, 16, 20, 24, np.int64(13)) for sll in (-30, -55.5)]
+    for name, kw, ref in extremes:
+        for N in ((16, 33) if quick else (8, 16, 33, 64, 101)):
+            ev = {'ev': 'formula', 'name': name, 'N': N, 'params': str(sorted(kw.items()))}
+            ok, w = call_guard(create_window, N, name, **kw)
+            ev['raised'] = not ok
+            if ok:
+                w = np.asarray(w, dtype=float)
+                exp = ref(N, list(kw.values())[0]) if ref else sw.taylor(N, nbar=int(kw['nbar']), sll=-kw['sll'], norm=True, sym=True)
+                ev['len'] = int(len(w))
+                ev['dev'] = obs.q(np.max(np.abs(w - exp))) if len(w) == N and np.all(np.isfinite(w)) else obs.QCAP
+                ev['sym_dev'] = obs.q(np.max(np.abs(w - w[::-1]))) if np.all(np.isfinite(w)) else obs.QCAP
+            else:
+                ev.update(len=0, dev=0, sym_dev=0)
+            batch.add(ev)
     obs.validate(chk, batch, 'obs-generic', lambda ev, cl: 'C20:OBS:%s:%s:%s' % (ev['name'], cl, 'odd' if ev['N'] % 2 else 'even'),
                  lambda ev, cl: 'window %s N=%d %s: clause "%s" fails' % (ev['name'], ev['N'], ev.get('params', ''), cl))
     chk.sample('obs-event', batch.events[40], 1)
